@@ -18,9 +18,17 @@ CHECKS = {
             "seeded exploration of (specification x hash-seed schedule); each unit exactly replayable from its replay file in a fresh interpreter with the recorded PYTHONHASHSEED; a clean batch is evidence, not proof",
             "trusted base: reference runtime model/rt.py (stub for fibertree), dense model model/dense.py, CPython; hash seeds are sampled (8 quick / 32 thorough)",
             "6 (C02)", 900, 3600),
+    "C03": ("deterministic simulation: lock-step compiler replicas differing only in interpreter hash seed, seeded class-O workload (occupancy partitioning, flattening), every emitted text executed on a reference runtime and compared with a dense Einsum model",
+            "seeded exploration of (specification x hash-seed schedule); replayable units; evidence, not proof",
+            "trusted base: reference runtime (splitEqual / splitNonUniform / flattenRanks / getPayload semantics of DESIGN 4.2), dense model, CPython; sampled hash seeds",
+            "6 (C03)", 900, 3600),
+    "C04": ("deterministic simulation: lock-step compiler replicas per hash seed, seeded class-A workload (affine accesses, partitioned index-math ranks), reference runtime vs dense model plus extent bound; known findings attributed only by counterfactual re-execution of the emitted text",
+            "seeded exploration of (specification x hash-seed schedule); replayable units; known findings K1-K3 printed as KNOWN-FINDING with fixed witnesses; evidence, not proof",
+            "trusted base: reference runtime (project/prune/iterRangeShapeRef semantics), dense model; single-text specs run as baseline and are reported separately in evidence",
+            "6 (C04)", 900, 3600),
 }
 
-PLANNED = ["C03", "C04", "C05", "C06", "C07", "C08", "C10", "C11", "C12", "C13", "C14", "C15", "C16", "C19"]
+PLANNED = ["C05", "C06", "C07", "C08", "C10", "C11", "C12", "C13", "C14", "C15", "C16", "C19"]
 
 
 def main():
